@@ -59,6 +59,9 @@ def plan(tier, seed):
                 shards.append(("pipe", tier, gi, ng, omfloat))
         if gi % 4 == 0:
             shards.append(("pipe_nostart", tier, gi, 3, True))
+        if gi % 4 == 1:
+            for omfloat in (True, False):
+                shards.append(("pipe_cubic", tier, gi, 2 if tier == "quick" else 3, omfloat))
     k = seed % len(shards)
     return shards[k:] + shards[:k]
 
@@ -67,13 +70,13 @@ def seed_of():
     return int(os.environ.get("VERIF_SEED", "0") or 0)
 
 
-def true_grains(ng, seed):
+def true_grains(ng, seed, strained=True):
     B0 = O.cell_to_B(CELL)
     out = []
     for k in range(ng):
         q = (k + seed) % 5
         R = O.rotation_from_axis_angle(*ROTS[q])
-        F = np.eye(3) + STRAINS[(k + 2 * seed) % 5]
+        F = np.eye(3) + (STRAINS[(k + 2 * seed) % 5] if strained else 0.0)
         UB = np.dot(R, np.dot(np.linalg.inv(F).T, B0))
         out.append((np.linalg.inv(UB), np.array(POSITIONS[(k + 3 * seed) % 5])))
     return out
@@ -122,13 +125,13 @@ def write_inputs(wd, pars, peaks, start, gm, P, with_translation=True):
     return order
 
 
-def run_case(sh, mods, pars, ng, omfloat, case, passes=3, with_translation=True):
+def run_case(sh, mods, pars, ng, omfloat, case, passes=3, with_translation=True, cubic=False):
     tr, gm, P, cf_mod, makemap_mod = mods
     wd = os.path.join(WORK, "c09_%d" % os.getpid())
     shutil.rmtree(wd, ignore_errors=True)
     os.makedirs(wd)
     try:
-        truth = true_grains(ng, seed_of())
+        truth = true_grains(ng, seed_of(), strained=not cubic)
         peaks = simulate(tr, pars, truth)
         start = perturbed(truth)
         if not with_translation:
@@ -145,7 +148,8 @@ def run_case(sh, mods, pars, ng, omfloat, case, passes=3, with_translation=True)
             for it in range(passes):
                 newubi = os.path.join(wd, "pass%d.ubi" % it)
                 opts = argparse.Namespace(parfile=os.path.join(wd, "g.par"), ubifile=ubifile, newubifile=newubi, fltfile=os.path.join(wd, "p.flt"),
-                                          newfltfile=None, symmetry="triclinic", latticesymmetry="triclinic", tol=0.05, omega_float=omfloat,
+                                          newfltfile=None, symmetry="cubic" if cubic else "triclinic", latticesymmetry="cubic" if cubic else "triclinic", tol=0.05,
+                                          omega_float=omfloat,
                                           omega_slop=0.25, tthrange=None, sort_npks=False)
                 with contextlib.redirect_stdout(io.StringIO()):
                     makemap_mod.makemap(opts)
@@ -172,6 +176,21 @@ def run_case(sh, mods, pars, ng, omfloat, case, passes=3, with_translation=True)
         if len(final) != ng:
             sh.violation("pipeline:number-of-grains", case, {"saved": len(final), "expected": ng}); ok = False
         worst_u, worst_t = 0.0, 0.0
+        if cubic and ok:
+            # the cell is constrained to cubic and the orientation reduced to the canonical setting of the cubic group: the saved matrix is
+            # an integer, determinant +1, metric-preserving re-indexing M of the true one; the true grain and hkl are mapped with it
+            mapped, newpk = [], peaks.copy()
+            for k in range(ng):
+                Mf = np.dot(final[k].ubi, np.linalg.inv(truth[k][0]))
+                M = np.round(Mf)
+                if np.abs(Mf - M).max() > 1e-3 or abs(np.linalg.det(M) - 1) > 1e-9 or np.abs(np.dot(M, M.T) - np.eye(3)).max() > 1e-9:
+                    sh.violation("refinement:saved-orientation-not-a-cubic-setting-of-the-true-grain", dict(case, grain=k), {"M": Mf}); ok = False
+                    break
+                mapped.append((np.dot(M, truth[k][0]), truth[k][1]))
+                m = peaks[:, 3].astype(int) == k
+                newpk[m, 4:7] = np.dot(M, peaks[m, 4:7].T).T
+            if ok:
+                truth, peaks = mapped, newpk
         for k in range(ng if ok else 0):
             ubi_t, t_t = truth[k]
             du = np.abs(final[k].ubi - ubi_t).max() / np.abs(ubi_t).max()
@@ -230,9 +249,9 @@ def run_shard(desc):
     kind, tier, gi, ng, omfloat = desc
     sh = Shard()
     pars = geometries(tier)[gi]
-    case = {"tier": tier, "geometry": gi, "ngrains": ng, "omega_float": omfloat, "seed": seed_of(), "start_has_translations": kind == "pipe",
-            "pars": {k: v for k, v in pars.items() if not k.startswith("cell")}}
-    info = run_case(sh, _mods(), pars, ng, omfloat, case, with_translation=(kind == "pipe"))
+    case = {"tier": tier, "geometry": gi, "ngrains": ng, "omega_float": omfloat, "seed": seed_of(), "start_has_translations": kind != "pipe_nostart",
+            "cubic_constraint": kind == "pipe_cubic", "pars": {k: v for k, v in pars.items() if not k.startswith("cell")}}
+    info = run_case(sh, _mods(), pars, ng, omfloat, case, with_translation=(kind != "pipe_nostart"), cubic=(kind == "pipe_cubic"))
     sh.sample(dict(case, **{k: v for k, v in (info or {}).items()}), limit=1)
     return sh
 
@@ -241,5 +260,6 @@ def replay(case):
     os.environ["VERIF_SEED"] = str(case.get("seed", 0))
     sh = Shard()
     pars = geometries(case["tier"])[case["geometry"]]
-    run_case(sh, _mods(), pars, case["ngrains"], case["omega_float"], case, with_translation=case.get("start_has_translations", True))
+    run_case(sh, _mods(), pars, case["ngrains"], case["omega_float"], case, with_translation=case.get("start_has_translations", True),
+             cubic=case.get("cubic_constraint", False))
     return (not sh.violations), {"violations": sh.violations[:3]}
